@@ -230,6 +230,24 @@ func Judge(o *reconlib.Outcome) vrun.Result {
 			fast = false
 		}
 	}
+	// a later link that died silently (a second failure armed on the retry's link) is only noticed by the keepalive: the
+	// whole sequence of outages counts, not just the time to the first new connection
+	if len(o.LinkInfos) > 1 {
+		var firstFail, lastConnect time.Time
+		for _, li := range o.LinkInfos {
+			if firstFail.IsZero() && !li.FailedVT.IsZero() {
+				firstFail = li.FailedVT
+			}
+			for _, r := range li.Log {
+				if _, ok := r.Msg.(*message.ConnectRequest); ok && r.Dir == memnet.C2S {
+					lastConnect = r.VT
+				}
+			}
+		}
+		if !firstFail.IsZero() && lastConnect.Sub(firstFail) > 30*time.Second {
+			fast = false
+		}
+	}
 	for _, c := range o.Calls {
 		if c.ConnClosedErr {
 			return vrun.Violation("an API call issued during the outage failed with a connection error instead of being sent again after recovery", "outage-call-connection-error:"+c.Name, map[string]any{"call": c})
